@@ -1626,6 +1626,10 @@ def run(ctx: vlib.Ctx) -> None:
             if (set(js) ^ set(bn)) - exc:
                 ctx.broke("T", f"formats of {c}", f"JSON-only attributes {sorted(set(js) - set(bn) - exc)}, binary-only {sorted(set(bn) - set(js) - exc)}")
         ctx.cov["format_tables"] = {"classes": len(res["format_fields"]), "exceptions": t11.FORMAT_EXCEPTIONS}
+        conf = [c for c, rows in res["json_op_shapes"].items() if all(e in t11.SHAPE_OK.get(d, set()) for _, d, e in rows)]
+        ctx.cov["json_ops"] = {"confirmed_from_serialize": conf,
+                               "derived_only": {c: [(k, d, e) for k, d, e in rows if e not in t11.SHAPE_OK.get(d, set())]
+                                                for c, rows in res["json_op_shapes"].items() if c not in conf}}
         ctx.cov["fixup_ref_slots"] = {c: {"slots": a, "exceptions": e} for c, a, b, e in res["ref_slots"]}
         for c, a, b, e in res["ref_slots"]:
             miss = [x for x in a if x not in b and x not in e]
